@@ -18,16 +18,25 @@ import common
 from common import Case, Failure, f2x, flist, clist, parse_flist, close_vec
 
 PID = 'C04'
-LEAN_TARGETS = ['Nitime.Props.C04']
+LEAN_TARGETS = ['Nitime.Props.C04', 'Nitime.Props.C04Hist']
 RULE = ('one PRNG state drives: estimator in {periodogram, periodogram_csd, multi_taper_psd, multi_taper_csd, welch(get_spectra), '
         'SpectralAnalyzer.psd/.periodogram/.spectrum_multi_taper}, the csd estimators also reached through get_spectra / get_spectra_bi / CoherenceAnalyzer.spectrum with the full option set, x real/complex x n of both parities x NFFT in {None, n, >n odd/even} x '
         'sides in {default, onesided, twosided} x Fs log-uniform in (1e-2,1e4) x 1..6 channels (+ an extra leading dimension), stratified by case index so that every parity / NFFT-mode / amplitude decade 1e-9..1e6 with non-zero mean / layout (1-d, (1,n), >=4 channels) / n_overlap in {None,0,1,N/2,N-1} / unit in {s,ms,us} combination occurs in each run, coherent channels with different spectra for adaptive weights x '
-        'NW/BW, low_bias, adaptive x Welch NFFT/overlap/window; distinct = distinct protocol line; non-trivial = signal not identically zero')
+        'NW/BW, low_bias, adaptive x Welch NFFT/overlap/window; '
+        'session 3 families: (L1) every estimator / analyzer on int16/int32/int64/uint8/float32/complex64/big-endian/read-only recordings (expectation from the exact float64 embedding; integer samples go to the model as integers); '
+        '(L3) normalize in {default, False, True}, NW and BW both given, Welch dict keys window as float64/float32/int array or callable, explicit detrend, spec without Fs / this_method, SpectralAnalyzer.cpsd; '
+        'precomputed transform Sk= (complex128 / complex64 / read-only / 3-d, length n, >n odd/even, 2n, <n) in programs of 1..4 calls periodogram_csd / periodogram / periodogram(row) on ONE transform object with varying sides / normalize, results scribbled on between calls; '
+        '(L2/L6) self-contained histories (part of the case, replayable): dpss_windows(N, NW, Kmax, interp_from, interp_kind) / other NW / tapered_spectra calls before a multitaper estimate on a fresh signal length, a variant call with other options (sides, NFFT, low_bias, adaptive flipped; same n, NW) before the judged call, the judged call made twice with the first result overwritten, one Welch spec dict handed to CoherenceAnalyzer / SpectralAnalyzer objects of a recording with another sampling rate before the judged analyzer, request histories through dpss_windows classified against scipy.signal.windows.dpss; '
+        'tapered_spectra(precomputed tapers) + mtm_cross_spectrum called directly for every pair, twice on the same spectra; '
+        'distinct = distinct protocol line; non-trivial = signal not identically zero')
 ASSUMPTIONS = [
     'DPSS tapers and eigenvalues are taken from nitime.utils.dpss_windows and passed to the model as data (their properties are C07)',
     'adaptive weights are taken from nitime.utils.adaptive_weights and passed to the model as data; monitored per run: real, finite, not all zero at any frequency (convergence of the iteration is not modelled)',
     'NFFT >= n in the Parseval clauses (the property quantifies over NFFT in {None, N, >N}); NFFT < n truncates the signal',
     'binary64 rounding inside the estimators is not modelled: model and implementation are compared at 1e-9 of the largest magnitude',
+    'float32 / complex64 data, a complex64 precomputed transform or a float32 window make scipy / numpy compute the FFT in single precision: those cases are compared at 2e-5 (integer recordings are converted to binary64 exactly and keep 1e-9 / 2e-9)',
+    'a method dictionary shared between analyzers carries an explicit n_overlap (CoherenceAnalyzer writes its own default overlap of 32 into the caller\'s dictionary whatever NFFT is; that is C13/C14 matter, the spec is kept valid here)',
+    'history cases: the tapers given to the model and used by the oracle come from scipy.signal.windows.dpss (agrees with utils.dpss_windows to ~1e-15 up to the sign of a taper, which no estimator output depends on), never from the process whose state is judged',
 ]
 TRUSTED_EXTRA = [
     'harness/translate_c04.py (index formulas Fn, Fl, last_freq, fxy_len regenerated from spectral.py into Generated/SpecIdx.lean)',
@@ -35,12 +44,24 @@ TRUSTED_EXTRA = [
     'welchCsdAt models matplotlib.mlab.csd / mlab.psd from the documented behaviour (zero-pad to NFFT, sliding segments every NFFT-noverlap, window, detrend none, conj(X) Y averaged over segments, one-sided doubling except DC/Nyquist, / Fs / sum(window^2), two-sided output rolled to start at the most negative frequency); mlab itself is not verified',
     'the Float reading of the RScalar/CScalar-polymorphic model approximates its real/complex reading (unproved)',
     'np.hanning as the default Welch window (its values are passed to the model as data)',
+    'harness/translate_c04.py gen_specwrites: flow-insensitive ast analysis giving, per estimator, the names modified in place and the names that may view a parameter (Generated/SpecWrites.lean; Props/C04Hist.lean estimators_do_not_write_parameters is decide over it, skAfter / skRun_eq_map rest on it)',
+    'scipy.signal.windows.dpss as the independent taper provider of the history cases and of the taper-provider histories',
+    'numpy.fft.fft computes the caller-supplied transform Sk of the Sk= cases (the model takes Sk as data and never transforms)',
     'exact reading: the same polymorphic definitions run over Q / Q(i) (ops xperiodogram, xpcsd, xwelch; NFFT in {1,2,4}, the only lengths with roots of unity in Q(i)); the implementation is compared with the exact rationals at 1e-13 and Parseval is checked with == on the exact output in every run',
 ]
 
 RTOL = 1e-9
 UNITS_TS = ['s', 'ms', 'us', 's']
 VIAS = [None, 'get_spectra', None, 'CoherenceAnalyzer', 'get_spectra_bi', 'get_spectra']
+VIAS_MT = [None, 'get_spectra', 'mtm-direct', 'CoherenceAnalyzer', 'get_spectra_bi', 'get_spectra', 'mtm-direct']
+
+
+def to_mtm_direct(m):
+    """mtm_cross_spectrum has no Fs: the direct calls are compared with the estimator at Fs = 1"""
+    if m.get('BW') is not None:
+        m['BW'] = m['BW'] / m['Fs']
+    m['Fs'] = 1.0
+    return m
 
 
 def tsa():
@@ -68,6 +89,52 @@ def put_data(m, s):
     return m
 
 
+EXACT_INT = ('int16', 'int32', 'int64', 'uint8')
+LOWPREC = ('float32', 'complex64')
+
+
+def get_input(m):
+    """the array handed to the implementation: the recorded values in the recorded dtype / flags (L1 families).  The
+    recorded values are exactly representable in that dtype (they were produced by converting the typed array to
+    float64), so the expectation computed from get_data(m) is the exact embedding; derived data that no longer
+    round-trip (a scaled integer signal) are passed as float64."""
+    x = get_data(m)
+    k = m.get('dtype')
+    if not k:
+        return x
+    try:
+        if k in EXACT_INT or k in LOWPREC:
+            if np.iscomplexobj(x) and k != 'complex64':
+                return x
+            v = x.astype(k)
+            if not np.array_equal(v.astype(x.dtype), x):
+                return x
+            return v
+        if k == 'bigendian':
+            return x.astype(x.dtype.newbyteorder('>'))
+        if k == 'readonly':
+            v = x.copy()
+            v.flags.writeable = False
+            return v
+    except Exception:
+        pass
+    return x
+
+
+def tol_of(m, base):
+    # single-precision data, transform or window: numpy / scipy then compute the FFT in single precision
+    return max(base, 2e-5) if (m.get('dtype') in LOWPREC or m.get('sk_kind') == 'c64' or m.get('window_kind') == 'float32') else base
+
+
+def sig(m, rows):
+    """signal argument of a protocol line: decimal integers for integer recordings (embedded by the MODEL), else binary64"""
+    rows = np.asarray(rows)
+    if m.get('dtype') in EXACT_INT and not np.iscomplexobj(rows) and np.array_equal(rows, np.round(rows)) \
+            and float(np.max(np.abs(rows))) < 2.0 ** 52:
+        return 'i' + ','.join(str(int(v)) for v in rows.reshape(-1))
+    return clist(rows.reshape(-1))
+
+
 def eff_onesided(m):
     cplx = m.get('im') is not None
     return (m['sides'] == 'default' and not cplx) or m['sides'] == 'onesided'
@@ -92,9 +159,21 @@ def mt_params(m, n):
     return NW, int(2 * NW)
 
 
+def indep_tapers(n, NW, Kmax):
+    """DPSS tapers and concentration ratios from an implementation that shares nothing with nitime (scipy.signal.windows.dpss);
+    agrees with utils.dpss_windows to ~1e-15 up to the sign of a taper, which no estimator output depends on"""
+    from scipy.signal.windows import dpss
+    d, e = dpss(int(n), float(NW), int(Kmax), return_ratios=True)
+    return np.asarray(d, dtype=float).reshape(int(Kmax), int(n)), np.asarray(e, dtype=float).reshape(-1)
+
+
 def mt_tapers(m, n):
     NW, Kmax = mt_params(m, n)
-    dpss, eig = utils().dpss_windows(n, NW, Kmax)
+    if m.get('hist') is not None:
+        # history cases: the tapers the MODEL and the ORACLE use must not come from the process whose state is judged
+        dpss, eig = indep_tapers(n, NW, Kmax)
+    else:
+        dpss, eig = utils().dpss_windows(n, NW, Kmax)
     if m.get('low_bias', True):
         keep = eig > 0.9
         dpss, eig = dpss[keep], eig[keep]
@@ -140,15 +219,39 @@ def method_dict(m):
     """the `method` dictionary that drives get_spectra / get_spectra_bi / CoherenceAnalyzer for this operation"""
     op, Fs = m['op'], m['Fs']
     if op == 'pcsd':
-        return {'this_method': 'periodogram_csd', 'Fs': Fs, 'NFFT': m.get('NFFT'), 'sides': m['sides']}
+        d = {'this_method': 'periodogram_csd', 'Fs': Fs, 'NFFT': m.get('NFFT'), 'sides': m['sides']}
+        if m.get('normalize') is not None:
+            d['normalize'] = m['normalize']
+        return d
     if op == 'mtcsd':
         return {'this_method': 'multi_taper_csd', 'Fs': Fs, 'NFFT': m.get('NFFT'), 'sides': m['sides'], 'adaptive': m['adaptive'],
                 'low_bias': m.get('low_bias', True), 'NW': m.get('NW'), 'BW': m.get('BW')}
-    meth = {'this_method': 'welch', 'NFFT': m['NFFT'], 'Fs': Fs}
+    return welch_dict(m, Fs)
+
+
+def welch_dict(m, Fs, with_fs=True):
+    """the Welch method dictionary with every optional key the case asks for (window as float64 / float32 / integer
+    array or as a callable, explicit detrend, n_overlap; 'this_method' present or left to the default)"""
+    meth = {'NFFT': m['NFFT']}
+    if not m.get('no_this_method'):
+        meth['this_method'] = 'welch'
+    if with_fs:
+        meth['Fs'] = Fs
     if m.get('n_overlap') is not None:
         meth['n_overlap'] = m['n_overlap']
     if m.get('window') is not None:
-        meth['window'] = np.array(m['window'], dtype=float)
+        w = np.array(m['window'], dtype=float)
+        wk = m.get('window_kind')
+        if wk == 'float32' and np.array_equal(w.astype(np.float32).astype(float), w):
+            w = w.astype(np.float32)
+        elif wk == 'int' and np.array_equal(np.round(w), w):
+            w = w.astype(np.int64)
+        elif wk == 'callable':
+            w = (lambda arr, w=w: arr * w)
+        meth['window'] = w
+    if m.get('detrend_key'):
+        from matplotlib import mlab
+        meth['detrend'] = mlab.detrend_none
     return meth
 
 
@@ -167,6 +270,32 @@ def run_wrapped(m, s):
         from nitime.analysis import CoherenceAnalyzer
         an = CoherenceAnalyzer(ts.TimeSeries(s.reshape(-1, n), sampling_rate=m['Fs']), method=meth)
         fxy, f = an.spectrum, an.frequencies
+    elif via == 'mtm-direct':
+        # the two lower-level entry points called directly: tapered_spectra with PRECOMPUTED tapers (ndarray branch) and
+        # mtm_cross_spectrum for every pair; every pair is evaluated twice on the SAME spectra / weights objects and the
+        # first results are scribbled on by the caller (L2 / L6); Fs is 1 (mtm_cross_spectrum does not divide by Fs)
+        import histories
+        U = utils()
+        dpss, eig = mt_tapers(m, n)
+        sd = 'onesided' if eff_onesided(m) else 'twosided'
+        tx = np.asarray(U.tapered_spectra(np.array(s.reshape(-1, n)), np.array(dpss), NFFT=m.get('NFFT')))
+        tx = tx.reshape(M, len(eig), -1)
+        w = adaptive_w(m, s) if m['adaptive'] else [np.sqrt(eig).reshape(-1, 1)] * M
+        keep = (tx.copy(), [np.array(x) for x in w])
+        L = tx.shape[-1] // 2 + 1 if sd == 'onesided' else tx.shape[-1]
+        fxy = np.zeros((M, M, L), dtype=complex)
+        for rep in range(2):
+            for i in range(M):
+                for j in range(M):
+                    r0 = A.mtm_cross_spectrum(tx[i], tx[i], w[i], sides=sd) if i == j else \
+                        A.mtm_cross_spectrum(tx[i], tx[j], (w[i], w[j]), sides=sd)
+                    fxy[i, j] = r0
+                    histories.scribble(r0)
+        if not (np.array_equal(tx, keep[0]) and all(np.array_equal(a, b) for a, b in zip(w, keep[1]))):
+            fxy[...] = np.nan          # the spectra / weights handed in were modified
+        f = None
+    elif via == 'SpectralAnalyzer.cpsd':
+        f, fxy = build_analyzer(m, s).cpsd
     elif via == 'get_spectra_bi':
         rows = s.reshape(-1, n)
         f, fxx, fyy, fxy01 = A.get_spectra_bi(rows[0], rows[1], method=meth)
@@ -187,21 +316,55 @@ def run_impl(m, s=None):
     """call the real API for the operation described by `m` (on the array object `s` when given, else on a fresh
     array built from the recorded data); returns a dict of arrays"""
     if s is None:
-        s = get_data(m)
+        s = get_input(m)
     n = s.shape[-1]
     op = m['op']
     Fs = m['Fs']
     A = tsa()
+    if m.get('hist'):
+        run_history_steps(m)
+    if op == 'skhist':
+        return run_skhist(m, s)
+    if op == 'tapers':
+        return run_tapers(m)
+    if m.get('twice'):
+        # L6: the judged call is made twice before on the same input: the result handed out first must still hold what it
+        # held after the second call; then the caller overwrites both, and the judged call is made
+        import histories, copy
+        try:
+            m1 = dict(m, twice=False, hist=None)
+            mv = same_array_variant(m1, n)
+            if mv is not None:
+                # L2: first another estimate of the SAME array object with other options (identity-keyed state across options)
+                try:
+                    histories.scribble(run_impl(mv, s))
+                except Exception:
+                    pass
+            a = run_impl(m1, s)
+            snap = copy.deepcopy(a)
+            b = run_impl(m1, s)
+            changed = [k for k in a if isinstance(a[k], np.ndarray) and not np.array_equal(a[k], snap[k], equal_nan=True)]
+            histories.scribble(a)
+            histories.scribble(b)
+            out = run_impl(m1, s)
+            if changed:
+                out['handed_out_changed'] = changed
+            if 'Fs_eff' in m1:
+                m['Fs_eff'] = m1['Fs_eff']
+            return out
+        except Exception:
+            pass
     if m.get('via') and op in ('pcsd', 'mtcsd', 'welch'):
         out = run_wrapped(m, s)
         if op == 'mtcsd' and m['adaptive']:
             out['w'] = adaptive_w(m, s)
         return out
+    nkw = {} if m.get('normalize') is None else {'normalize': m['normalize']}
     if op == 'periodogram':
-        f, P = A.periodogram(s, Fs=Fs, N=m.get('NFFT'), sides=m['sides'])
+        f, P = A.periodogram(s, Fs=Fs, N=m.get('NFFT'), sides=m['sides'], **nkw)
         return {'f': f, 'P': P}
     if op == 'pcsd':
-        f, Cm = A.periodogram_csd(s, Fs=Fs, NFFT=m.get('NFFT'), sides=m['sides'])
+        f, Cm = A.periodogram_csd(s, Fs=Fs, NFFT=m.get('NFFT'), sides=m['sides'], **nkw)
         return {'f': f, 'C': Cm}
     if op in ('mtpsd', 'mtcsd'):
         kw = dict(Fs=Fs, NW=m.get('NW'), BW=m.get('BW'), adaptive=m['adaptive'], low_bias=m.get('low_bias', True),
@@ -217,30 +380,176 @@ def run_impl(m, s=None):
             out.update(f=f, C=Cm)
         return out
     if op == 'welch':
-        meth = {'this_method': 'welch', 'NFFT': m['NFFT'], 'Fs': Fs}
-        if m.get('n_overlap') is not None:
-            meth['n_overlap'] = m['n_overlap']
-        if m.get('window') is not None:
-            meth['window'] = np.array(m['window'], dtype=float)
-        f, fxy = A.get_spectra(s, method=meth)
+        f, fxy = A.get_spectra(s, method=None if m.get('method_none') else welch_dict(m, Fs))
         return {'f': f, 'W': fxy}
     if op in ('an_psd', 'an_periodogram', 'an_mt'):
-        import nitime.timeseries as ts
-        from nitime.analysis import SpectralAnalyzer
-        T = ts.TimeSeries(s, sampling_rate=Fs, time_unit=m.get('unit', 's'))
-        m['Fs_eff'] = float(T.sampling_rate)
+        an = build_analyzer(m, s)
         if op == 'an_psd':
-            meth = {'this_method': 'welch', 'NFFT': m['NFFT'], 'Fs': Fs}
-            if m.get('n_overlap') is not None:
-                meth['n_overlap'] = m['n_overlap']
-            f, P = SpectralAnalyzer(T, method=meth).psd
-            return {'f': f, 'P': P}
-        if op == 'an_periodogram':
-            f, P = SpectralAnalyzer(T).periodogram
-            return {'f': f, 'P': P}
-        f, P = SpectralAnalyzer(T, BW=m.get('BW'), adaptive=m['adaptive'], low_bias=m.get('low_bias', False)).spectrum_multi_taper
+            f, P = an.psd
+        elif op == 'an_periodogram':
+            f, P = an.periodogram
+        else:
+            f, P = an.spectrum_multi_taper
         return {'f': f, 'P': P}
     raise ValueError(op)
+
+
+def same_array_variant(m, n):
+    """the same operation with other option values (sides, NFFT, low_bias, overlap / window), to be run on the same ndarray"""
+    op = m['op']
+    if op in ('periodogram', 'pcsd', 'mtpsd', 'mtcsd'):
+        mv = dict(m, sides='default' if m['sides'] == 'twosided' else 'twosided', NFFT=(n + 3) if not m.get('NFFT') else None)
+        if op in ('mtpsd', 'mtcsd'):
+            mv['low_bias'] = not m.get('low_bias', True)
+        return mv
+    if op == 'welch' and not m.get('method_none'):
+        N = m['NFFT']
+        mv = dict(m, n_overlap=0 if welch_overlap(m) != 0 else N // 2,
+                  window=[float(v) for v in np.hamming(N)] if m.get('window') is None else None)
+        mv.pop('window_kind', None)
+        return mv
+    return None
+
+
+def build_analyzer(m, s):
+    """SpectralAnalyzer for the operation; with m['shared'] the method dictionary OBJECT was first handed to the analyzers
+    of another recording with another sampling rate (L2: one spec dict written once and reused in a loop)"""
+    import nitime.timeseries as ts
+    from nitime.analysis import SpectralAnalyzer, CoherenceAnalyzer
+    import histories
+    op, Fs = m['op'], m['Fs']
+    if m.get('ts_reuse'):
+        # L2: the TimeSeries OBJECT was analysed before with other contents, then refilled in place; a NEW analyzer is judged
+        s0 = np.array(s)
+        s0[...] = (np.roll(s0, 1, axis=-1) * 0.5 + 1) if s0.dtype.kind in 'fc' else np.roll(s0, 1, axis=-1)
+        T = ts.TimeSeries(s0, sampling_rate=Fs, time_unit=m.get('unit', 's'))
+        try:
+            first = build_analyzer_on(m, T, Fs)
+            histories.scribble(getattr(first, {'an_psd': 'psd', 'welch': 'cpsd', 'an_periodogram': 'periodogram', 'an_mt': 'spectrum_multi_taper'}[op]))
+        except Exception:
+            pass
+        T.data[...] = s
+    else:
+        T = ts.TimeSeries(s, sampling_rate=Fs, time_unit=m.get('unit', 's'))
+    m['Fs_eff'] = float(T.sampling_rate)
+    return build_analyzer_on(m, T, Fs)
+
+
+def build_analyzer_on(m, T, Fs):
+    import nitime.timeseries as ts
+    from nitime.analysis import SpectralAnalyzer, CoherenceAnalyzer
+    op = m['op']
+    if op in ('an_psd', 'welch'):
+        sh = m.get('shared')
+        meth = None if m.get('method_none') else welch_dict(m, Fs, with_fs=not (sh or m.get('no_fs_key')))
+        if sh:
+            other = ts.TimeSeries(np.arange(2 * 3 * m['NFFT'], dtype=float).reshape(2, -1) % 7 - 3.0, sampling_rate=Fs * sh['ratio'])
+            for who in sh['who']:
+                if who == 'coherence-ctor':
+                    CoherenceAnalyzer(other, method=meth)
+                elif who == 'coherence-spectrum':
+                    CoherenceAnalyzer(other, method=meth).spectrum
+                elif who == 'cpsd':
+                    SpectralAnalyzer(other, method=meth).cpsd
+                elif who == 'psd':
+                    SpectralAnalyzer(other, method=meth).psd
+        return SpectralAnalyzer(T, method=meth)
+    if op == 'an_periodogram':
+        return SpectralAnalyzer(T)
+    return SpectralAnalyzer(T, BW=m.get('BW'), adaptive=m['adaptive'], low_bias=m.get('low_bias', False))
+
+
+# ------------------------------------------------------------------ histories (L2 / L6)
+def run_history_steps(m):
+    """what happened in the process before the judged call (every step is part of the case: replayable)"""
+    import histories
+    U = utils()
+    for st in m['hist']:
+        try:
+            if st[0] == 'dpss':
+                _, n, NW, K, frm, kind = st
+                r = U.dpss_windows(n, NW, K, interp_from=frm, interp_kind=kind) if frm else U.dpss_windows(n, NW, K)
+                histories.scribble(r)
+            elif st[0] == 'call':
+                histories.scribble(run_impl(st[1]))
+            elif st[0] == 'tapered_spectra':
+                _, shape, NW, K, low_bias = st
+                x = np.cos(np.arange(int(np.prod(shape)), dtype=float)).reshape(shape)
+                histories.scribble(U.tapered_spectra(x, (NW, K), low_bias=low_bias))
+        except Exception:
+            pass
+
+
+SK_KINDS = ['c128', 'strided', 'c64', 'ro', 'F', '3d', 'c128']
+
+
+def make_sk(m):
+    """the caller's precomputed transform (numpy's FFT of the float64 data, NOT nitime's code path)"""
+    x = get_data(m)
+    Sk = np.fft.fft(x, n=m['Nsk'])
+    k = m.get('sk_kind', 'c128')
+    if k == 'c64':
+        Sk = Sk.astype(np.complex64)
+    elif k == 'ro':
+        Sk.flags.writeable = False
+    elif k == 'strided':
+        big = np.zeros(Sk.shape[:-1] + (2 * Sk.shape[-1],), dtype=Sk.dtype)
+        big[..., ::2] = Sk
+        Sk = big[..., ::2]
+    elif k == 'F':
+        Sk = np.asfortranarray(Sk)
+    return Sk
+
+
+def sk_call(A, m, s, Sk, c):
+    kind, sides, norm = c[0], c[1], bool(c[2])
+    if kind == 'c':
+        return np.asarray(A.periodogram_csd(s, Fs=m['Fs'], Sk=Sk, sides=sides, normalize=norm)[1])
+    if kind == 'p':
+        return np.asarray(A.periodogram(s, Fs=m['Fs'], Sk=Sk, sides=sides, normalize=norm)[1])
+    r = c[3]
+    s2 = s.reshape(-1, s.shape[-1])
+    return np.asarray(A.periodogram(s2[r], Fs=m['Fs'], Sk=Sk.reshape(-1, Sk.shape[-1])[r], sides=sides, normalize=norm)[1])
+
+
+def run_skhist(m, s):
+    """the program  f1(s, Sk=Sk); f2(s, Sk=Sk); ...  on ONE transform object; with m['scribble'] every result handed out
+    is overwritten by the caller before the next call"""
+    import histories
+    A = tsa()
+    Sk = make_sk(m)
+    keep = Sk.copy()
+    outs = []
+    for c in m['calls']:
+        r = sk_call(A, m, s, Sk, c)
+        outs.append(np.array(r))
+        if m.get('scribble'):
+            histories.scribble(r)
+    return {'H': outs, 'sk_changed': not np.array_equal(Sk, keep)}
+
+
+def run_tapers(m):
+    """a history of dpss_windows requests; every answer is classified against the independent provider: 0 = the exactly
+    computed set (up to the sign of a taper), 1 = something else (interpolated tapers)"""
+    U = utils()
+    out = []
+    for (n, nw4, K, frm, kind) in m['reqs']:
+        NW = nw4 / 4.0
+        d, e = U.dpss_windows(n, NW, K, interp_from=frm, interp_kind=INTERP_KINDS[kind]) if frm else U.dpss_windows(n, NW, K)
+        d0, e0 = indep_tapers(n, NW, K)
+        sg = np.sign((np.asarray(d) * d0).sum(axis=-1))
+        sg[sg == 0] = 1
+        exact = np.max(np.abs(np.asarray(d) - sg[:, None] * d0)) < 1e-7 and np.max(np.abs(np.asarray(e) - e0)) < 1e-7
+        out.append(0 if exact else 1)
+        try:
+            d[...] = 0.125          # the caller is free to rescale the tapers it was handed
+            e[...] = 0.125
+        except Exception:
+            pass
+    return {'T': out}
+
+
+INTERP_KINDS = ['linear', 'nearest', 'zero', 'cubic']
 
 
 def welch_overlap(m):
@@ -269,17 +578,47 @@ def make_cases(m, r, pid='C04'):
     out = []
     if m.get('exact'):
         return exact_cases(m, r, pid)
+    ct = tol_of(m, RTOL)
+    if op == 'skhist':
+        Sk = np.asarray(make_sk(m), dtype=complex).reshape(M, -1)
+        calls = ';'.join(':'.join([c[0], c[1], '1' if c[2] else '0'] + ([str(c[3])] if c[0] == 'r' else [])) for c in m['calls'])
+        flat = np.concatenate([np.asarray(o, dtype=complex).reshape(-1) for o in r['H']])
+        out.append(Case('%s skhist %s %d %s %d %s %s' % (pid, f2x(m['Fs']), n, '1' if cplx else '0', M, clist(Sk.reshape(-1)), calls),
+                        ok_c(flat), clause_of(m), cmp=cmp_vec(ct), meta=m, nontrivial=nz))
+        # the single calls of the history, on the model's precomputed-transform branch
+        c0 = m['calls'][0]
+        if c0[0] == 'c':
+            out.append(Case('%s pcsdsk %s %d %s %s %s %d %s' % (pid, f2x(m['Fs']), n, '1' if cplx else '0', c0[1], '1' if c0[2] else '0', M,
+                                                               clist(Sk.reshape(-1))),
+                            ok_c(r['H'][0]), 'periodogram_csd/Sk/single', cmp=cmp_vec(ct), meta=None, nontrivial=nz))
+        elif c0[0] == 'p':
+            P0 = np.asarray(r['H'][0]).reshape(M, -1)
+            for i in range(min(M, 2)):
+                out.append(Case('%s pgsk %s %d %s %s %s %s' % (pid, f2x(m['Fs']), n, '1' if cplx else '0', c0[1], '1' if c0[2] else '0', clist(Sk[i])),
+                                ok_f(P0[i]), 'periodogram/Sk/single', cmp=cmp_vec(ct), meta=None, nontrivial=nz))
+        return out
+    if op == 'tapers':
+        line = '%s tapers %s' % (pid, ';'.join(':'.join(str(int(v)) for v in q) for q in m['reqs']))
+        return [Case(line, 'ok ' + ','.join(str(v) for v in r['T']), 'taper_provider/history', meta=m)]
     if op in ('periodogram', 'an_periodogram'):
         Fs = m.get('Fs_eff', m['Fs'])
         N = eff_nfft(m, n)
         P = np.asarray(r['P']).reshape(M, -1)
         for i in range(M):
-            out.append(Case('%s periodogram %s %d %s %s' % (pid, f2x(Fs), N, sd, clist(rows[i])), ok_f(P[i]),
-                            '%s/%s/%s' % (op, 'onesided' if one else 'twosided', pad), cmp=cmp_vec(), meta=m if i == 0 else None, nontrivial=nz))
+            if m.get('normalize') is None:
+                line = '%s periodogram %s %d %s %s' % (pid, f2x(Fs), N, sd, sig(m, rows[i]))
+            else:
+                line = '%s periodogramn %s %d %s %s %s' % (pid, f2x(Fs), N, sd, '1' if m['normalize'] else '0', sig(m, rows[i]))
+            out.append(Case(line, ok_f(P[i]),
+                            '%s/%s/%s' % (op, 'onesided' if one else 'twosided', pad), cmp=cmp_vec(ct), meta=m if i == 0 else None, nontrivial=nz))
     elif op == 'pcsd':
         N = eff_nfft(m, n)
-        out.append(Case('%s pcsd %s %d %s %d %s' % (pid, f2x(m['Fs']), N, sd, M, clist(rows.reshape(-1))), ok_c(r['C']),
-                        'periodogram_csd/%s/%s' % ('onesided' if one else 'twosided', pad), cmp=cmp_vec(), meta=m, nontrivial=nz))
+        if m.get('normalize') is None:
+            line = '%s pcsd %s %d %s %d %s' % (pid, f2x(m['Fs']), N, sd, M, sig(m, rows))
+        else:
+            line = '%s pcsdn %s %d %s %s %d %s' % (pid, f2x(m['Fs']), N, sd, '1' if m['normalize'] else '0', M, sig(m, rows))
+        out.append(Case(line, ok_c(r['C']),
+                        'periodogram_csd/%s/%s' % ('onesided' if one else 'twosided', pad), cmp=cmp_vec(ct), meta=m, nontrivial=nz))
     elif op in ('mtpsd', 'an_mt', 'mtcsd'):
         if op == 'an_mt':
             m = dict(m, sides='default', NFFT=None, low_bias=m.get('low_bias', False))
@@ -299,8 +638,8 @@ def make_cases(m, r, pid='C04'):
         if op == 'mtcsd':
             w = r['w'].reshape(-1) if m['adaptive'] else np.sqrt(eig)
             out.append(Case('%s mtcsd %s %d %s %d %d %s %s %s %s' % (pid, f2x(Fs), N, sd, M, T, flist(dpss.reshape(-1)), wm,
-                                                                   flist(w), clist(rows.reshape(-1))),
-                            ok_c(r['C']), cl, cmp=cmp_vec(), meta=m, nontrivial=nz))
+                                                                   flist(w), sig(m, rows)),
+                            ok_c(r['C']), cl, cmp=cmp_vec(tol_of(m, 1e-8 if m['adaptive'] else RTOL)), meta=m, nontrivial=nz))
         else:
             P = np.asarray(r['P']).reshape(M, -1)
             for i in range(M):
@@ -317,33 +656,50 @@ def make_cases(m, r, pid='C04'):
                 else:
                     w = np.sqrt(eig)
                 out.append(Case('%s mtpsd %s %d %s %d %s %s %s %s' % (pid, f2x(Fs), N, sd, T, flist(dpss.reshape(-1)), wm, flist(w),
-                                                                    clist(rows[i])),
-                                ok_f(P[i]), cl, cmp=cmp_vec(1e-8 if m['adaptive'] else RTOL), meta=m if i == 0 else None, nontrivial=nz))
+                                                                    sig(m, rows[i])),
+                                ok_f(P[i]), cl, cmp=cmp_vec(tol_of(m, 1e-8 if m['adaptive'] else RTOL)), meta=m if i == 0 else None, nontrivial=nz))
     elif op == 'welch':
         N = m['NFFT']
         one = not cplx
         nov = welch_overlap(m)
         win = welch_window(m)
         pad = 'padded' if N > n else 'nopad'
-        out.append(Case('%s welch %s %d %d %s %d %s %s' % (pid, f2x(m['Fs']), N, nov, '1' if one else '2', M, flist(win),
-                                                          clist(rows.reshape(-1))),
-                        ok_c(r['W']), 'welch/%s/%s' % ('onesided' if one else 'twosided', pad), cmp=cmp_vec(), meta=m, nontrivial=nz))
+        out.append(Case('%s welch %s %d %d %s %d %s %s' % (pid, f2x(m.get('Fs_eff', m['Fs']) if m.get('via') == 'SpectralAnalyzer.cpsd' else m['Fs']), N, nov, '1' if one else '2', M, flist(win),
+                                                          sig(m, rows)),
+                        ok_c(r['W']), 'welch/%s/%s' % ('onesided' if one else 'twosided', pad), cmp=cmp_vec(ct), meta=m, nontrivial=nz))
     elif op == 'an_psd':
         N = m['NFFT']
         one = not cplx
         nov = welch_overlap(m)
-        win = np.hanning(N)
+        win = welch_window(m)
         P = np.asarray(r['P']).reshape(M, -1)
         pad = 'padded' if N > n else 'nopad'
         for i in range(M):
-            out.append(Case('%s welch %s %d %d %s 1 %s %s' % (pid, f2x(m['Fs_eff']), N, nov, '1' if one else '2', flist(win), clist(rows[i])),
-                            ok_c(P[i]), 'an_psd/%s/%s' % ('onesided' if one else 'twosided', pad), cmp=cmp_vec(),
+            out.append(Case('%s welch %s %d %d %s 1 %s %s' % (pid, f2x(m['Fs_eff']), N, nov, '1' if one else '2', flist(win), sig(m, rows[i])),
+                            ok_c(P[i]), 'an_psd/%s/%s' % ('onesided' if one else 'twosided', pad), cmp=cmp_vec(ct),
                             meta=m if i == 0 else None, nontrivial=nz))
     if m.get('via'):
         for c in out:
             c.clause += '/via-' + m['via']
+    tag = tag_of(m)
+    if tag:
+        for c in out:
+            c.clause += tag
     return out
 
+
+def tag_of(m):
+    """clause suffix of the input-space class a case belongs to"""
+    t = ''
+    if m.get('dtype'):
+        t += '/dtype-' + m['dtype']
+    if m.get('normalize') is not None:
+        t += '/normalize-%s' % m['normalize']
+    if m.get('method_none'):
+        t += '/method-None'
+    if m.get('hist') or m.get('shared') or m.get('twice') or m.get('ts_reuse'):
+        t += '/history'
+    return t
 
 
 # ------------------------------------------------------------------ exact runs (model over Q / Q(i), NFFT in {1,2,4})
@@ -512,6 +868,12 @@ def judge(m, r=None, robust=True):
     """property-level judgement of the implementation on the operation `m` (list of (symptom, what))"""
     if r is None:
         r = run_impl(m)
+    if m['op'] == 'skhist':
+        return judge_skhist(m, r)
+    if m['op'] == 'tapers':
+        return [('lookup-ne-recompute', 'request %d of the history %s: dpss_windows returned %s tapers (independent DPSS implementation as reference)'
+                 % (i, m['reqs'], 'something other than the exactly computed' if q[3] == 0 else 'the exactly computed set instead of interpolated'))
+                for i, (q, t) in enumerate(zip(m['reqs'], r['T'])) if t != (1 if q[3] else 0)][:1]
     s = get_data(m)
     n = s.shape[-1]
     rows = s.reshape(-1, n)
@@ -522,7 +884,14 @@ def judge(m, r=None, robust=True):
     bad = []
     Fs = m.get('Fs_eff', m['Fs'])
     power = (np.abs(rows) ** 2).sum(axis=-1) / n
-    rt = 2e-9
+    rt = tol_of(m, 2e-9)
+    if m.get('normalize') is False:
+        power = power * (Fs * n)            # normalize=False: the density is NOT divided by Fs * n
+    nkw = {} if m.get('normalize') is None else {'normalize': m['normalize']}
+    if robust and (m.get('hist') or m.get('shared') or m.get('twice') or m.get('dtype') or m.get('ts_reuse') or m.get('method_none')):
+        robust = False
+    if r.get('handed_out_changed'):
+        bad.append(('handed-out-result-changed', 'a result handed out earlier (%s) changed when the same call was made again' % r['handed_out_changed']))
     if op in ('periodogram', 'an_periodogram'):
         N = eff_nfft(m, n)
         P = np.asarray(r['P'])
@@ -560,7 +929,7 @@ def judge(m, r=None, robust=True):
                 bad.append(('parseval', 'sum(diag csd)*Fs/NFFT = %r but mean |x|^2 = %r (n=%d NFFT=%d): density divided by Fs*NFFT instead of Fs*n'
                             % (tot.tolist()[:3], power.tolist()[:3], n, N)))
         # the auto-densities must be what periodogram() returns for that channel with the same settings
-        _, P1 = tsa().periodogram(rows, Fs=Fs, N=m.get('NFFT'), sides=m['sides'])
+        _, P1 = tsa().periodogram(rows, Fs=Fs, N=m.get('NFFT'), sides=m['sides'], **nkw)
         if not rel_close(d.real, np.asarray(P1).reshape(M, -1), rt):
             bad.append(('diag-ne-periodogram', 'diagonal of periodogram_csd differs from periodogram() of the same channel (n=%d NFFT=%d): max ratio %.6g'
                         % (n, N, float(np.max(np.abs(d.real)) / max(np.max(np.abs(P1)), 1e-300)))))
@@ -587,7 +956,12 @@ def judge(m, r=None, robust=True):
             P = d.real
         else:
             P = np.asarray(r['P'])
-            if np.iscomplexobj(P):
+            if np.iscomplexobj(P) and op == 'an_mt' and cplx:
+                # SpectralAnalyzer.spectrum_multi_taper allocates a complex array for complex data by design
+                if np.max(np.abs(P.imag)) > 1e-12 * max(float(np.max(np.abs(P))), 1e-300):
+                    bad.append(('not-real', 'multitaper psd has an imaginary part'))
+                P = P.real
+            elif np.iscomplexobj(P):
                 bad.append(('not-real', 'multitaper psd returned as a complex array'))
                 P = P.real
             P = P.reshape(M, -1)
@@ -621,7 +995,7 @@ def judge(m, r=None, robust=True):
             a = m.get('scale', 1.5)
             r2 = run_impl(put_data(dict(m), a * s))
             key = 'C' if op == 'mtcsd' else 'P'
-            if not rel_close(np.asarray(r2[key]), abs(a) ** 2 * np.asarray(r[key]), 1e-6 if m['adaptive'] else rt):
+            if not rel_close(np.asarray(r2[key]), abs(a) ** 2 * np.asarray(r[key]), max(1e-6, rt) if m['adaptive'] else rt):
                 bad.append(('scale', 'multitaper(a*x) != |a|^2 multitaper(x)'))
             if one and not cplx and not m['adaptive']:
                 r3 = run_impl(dict(m, sides='twosided'))
@@ -631,13 +1005,13 @@ def judge(m, r=None, robust=True):
     elif op in ('welch', 'an_psd'):
         N = m['NFFT']
         nov = welch_overlap(m)
-        win = welch_window(m) if op == 'welch' else np.hanning(N)
+        win = welch_window(m)
         if op == 'welch':
             W = np.asarray(r['W'])
             d = W.reshape(1, -1) if M == 1 else np.array([W[i, i] for i in range(M)])
         else:
             d = np.asarray(r['P']).reshape(M, -1)
-        if np.max(np.abs(np.imag(d))) > 1e-12 * max(np.max(np.abs(d)), 1e-300):
+        if np.max(np.abs(np.imag(d))) > max(1e-12, rt * 1e-3) * max(np.max(np.abs(d)), 1e-300):
             bad.append(('not-real', 'Welch auto-density has an imaginary part'))
         d = np.real(d)
         if np.any(d < 0):
@@ -659,6 +1033,45 @@ def judge(m, r=None, robust=True):
                 bad.append(('scale', 'welch(a*x) != |a|^2 welch(x)'))
     if robust:
         bad += robustness(m, r)
+    return bad
+
+
+def judge_skhist(m, r):
+    """every output of the program f1(Sk); f2(Sk); ... must be what a fresh call on a fresh transform returns, integrate to
+    the mean power (normalised outputs, transform not shorter than the signal) and the one-sided outputs must be the fold
+    of the two-sided ones -- on the first use and on every later use of the same transform"""
+    A = tsa()
+    s = get_data(m)
+    n = s.shape[-1]
+    rows = s.reshape(-1, n)
+    M = rows.shape[0]
+    cplx = m.get('im') is not None
+    N = m['Nsk']
+    Fs = m['Fs']
+    rt = tol_of(m, 2e-9)
+    power = (np.abs(rows) ** 2).sum(axis=-1) / n
+    bad = []
+    for idx, (c, out) in enumerate(zip(m['calls'], r['H'])):
+        kind, sides, norm = c[0], c[1], bool(c[2])
+        one = (sides == 'default' and not cplx) or sides == 'onesided'
+        fresh = sk_call(A, m, np.array(s), np.ascontiguousarray(np.fft.fft(s, n=N)), c)
+        which = 'first' if idx == 0 else 'later'
+        if not rel_close(np.asarray(out), fresh, rt):
+            bad.append(('%s-use-ne-fresh' % which, 'use %d (%s) of ONE precomputed transform differs from the same call on a freshly computed transform: ratio %.6g%s'
+                        % (idx, c, float(np.max(np.abs(out)) / max(float(np.max(np.abs(fresh))), 1e-300)),
+                           '; the caller\'s Sk was modified' if r.get('sk_changed') else '')))
+            continue
+        if norm and N >= n and (not one or not cplx):
+            if kind == 'c':
+                d = np.array([np.asarray(out)[i, i].real for i in range(M)])
+                pw = power
+            elif kind == 'p':
+                d, pw = np.asarray(out).reshape(M, -1), power
+            else:
+                d, pw = np.asarray(out).reshape(1, -1), power[c[3]:c[3] + 1]
+            tot = d.sum(axis=-1) * Fs / N
+            if not rel_close(tot, pw, rt):
+                bad.append(('%s-use-parseval' % which, 'use %d (%s): sum(psd)*Fs/N = %r but mean |x|^2 = %r' % (idx, c, tot.tolist()[:3], pw.tolist()[:3])))
     return bad
 
 
@@ -728,6 +1141,15 @@ def robustness(m, r):
 
 
 def clause_of(m):
+    if m['op'] == 'skhist':
+        return 'sk_history/%s/%s%s' % ({'c': 'periodogram_csd', 'p': 'periodogram', 'r': 'periodogram_row'}[m['calls'][0][0]],
+                                       'reuse' if len(m['calls']) > 1 else 'single', '/scribble' if m.get('scribble') else '')
+    if m['op'] == 'tapers':
+        return 'taper_provider/history'
+    return clause_base(m) + tag_of(m)
+
+
+def clause_base(m):
     s = get_data(m)
     n = s.shape[-1]
     cplx = m.get('im') is not None
@@ -811,27 +1233,37 @@ def gen_n(rng, lo, hi, i):
     return n
 
 
-def gen_meta(rng, nr, tier, kind, i=None):
+HIST_OPS = {'h_mt': ['mtpsd', 'mtcsd', 'an_mt', 'mtpsd', 'mtcsd'], 'h_call': ['periodogram', 'pcsd', 'mtpsd', 'mtcsd', 'welch', 'an_periodogram']}
+
+
+def gen_meta(rng, nr, tier, kind, i=None, nfix=None):
     big = tier == 'thorough'
     nmax = 160 if big else 48
     i = rng.randrange(10**6) if i is None else i
     if kind in ('xperiodogram', 'xpcsd', 'xwelch'):
         return gen_exact(rng, nr, kind, i)
+    if kind.startswith('h_') or kind == 'tapers':
+        return gen_history(rng, nr, tier, kind, i, nmax)
     if kind in ('periodogram', 'pcsd'):
-        n = gen_n(rng, 8, nmax, i)
+        n = nfix or gen_n(rng, 8, nmax, i)
         cplx = (i % 11) in (2, 5, 8)
         shape = gen_shape(rng, n, maxch=6, allow_1d=(kind == 'periodogram'), i=i // 3)
         m = {'op': kind, 'Fs': gen_fs(rng), 'NFFT': gen_nfft(rng, n, i), 'sides': ['default', 'onesided', 'twosided', 'default'][(i // 5) % 4],
              'scale': rng.choice([1.5, -2.0, 0.25, 3.0])}
         if cplx and m['sides'] == 'onesided' and rng.random() < 0.7:
             m['sides'] = 'default'
+        nm = [None, None, None, False, None, True][(i // 2) % 6]
+        if nm is not None:
+            m['normalize'] = nm
+        if kind == 'periodogram' and i % 19 == 7:
+            m['NFFT'] = 0               # `N = s.shape[-1] if not N else N`: an explicit 0 means n
         if kind == 'pcsd':
             m['via'] = VIAS[(i // 4) % len(VIAS)]
             if m['via'] == 'get_spectra_bi':
                 shape = (2, n)
         return put_data(m, gen_signal(rng, nr, shape, cplx, i=i // 7))
     if kind in ('mtpsd', 'mtcsd'):
-        n = gen_n(rng, 16, nmax, i)
+        n = nfix or gen_n(rng, 16, nmax, i)
         cplx = (i % 11) in (2, 5, 8)
         shape = gen_shape(rng, n, maxch=5 if kind == 'mtcsd' else 4, allow_1d=(kind == 'mtpsd'), i=i // 3)
         Fs = gen_fs(rng)
@@ -845,10 +1277,18 @@ def gen_meta(rng, nr, tier, kind, i=None):
         else:
             m['NW'] = rng.choice([2, 2.5, 3, 4, None])
             m['BW'] = None
+        if i % 17 == 3:
+            m['NFFT'] = [0, n - 5, n // 2][(i // 17) % 3]       # documented: NFFT < n is not allowed and means n
+        if i % 13 == 6:
+            # both given: BW wins (the NW passed along must be ignored)
+            m['BW'], m['NW'] = rng.choice([4, 6]) * Fs / n, rng.choice([2, 3.5])
         if kind == 'mtcsd':
-            m['via'] = VIAS[(i // 4) % len(VIAS)]
+            m['via'] = VIAS_MT[(i // 4) % len(VIAS_MT)]
             if m['via'] == 'get_spectra_bi':
                 shape = (2, n)
+            elif m['via'] == 'mtm-direct':
+                shape = (rng.randint(1, 3), n)
+                to_mtm_direct(m)
         return put_data(m, gen_signal(rng, nr, shape, cplx, i=i // 7, coherent=(m['adaptive'] and i % 2 == 1)))
     if kind == 'welch':
         Ns = [8, 9, 12, 15, 16, 21, 32] + ([64, 63] if big else [])
@@ -861,7 +1301,7 @@ def gen_meta(rng, nr, tier, kind, i=None):
              'n_overlap': [None, 0, 1, N // 2, N - 1, rng.randint(0, N - 1)][(i // 5) % 6],
              'window': rng.choice([None, None, [float(v) for v in np.ones(N)], [float(v) for v in np.hamming(N)]]),
              'scale': rng.choice([1.5, -2.0, 0.25])}
-        m['via'] = [None, None, 'get_spectra_bi', 'CoherenceAnalyzer'][(i // 4) % 4]
+        m['via'] = [None, None, 'get_spectra_bi', 'CoherenceAnalyzer', None, 'SpectralAnalyzer.cpsd'][(i // 4) % 6]
         if m['via'] == 'get_spectra_bi':
             shape = (2, n)
         elif m['via'] == 'CoherenceAnalyzer':
@@ -869,6 +1309,21 @@ def gen_meta(rng, nr, tier, kind, i=None):
                 shape = (2, n)
             if m['n_overlap'] is None:
                 m['n_overlap'] = N // 2     # the analyzer's own default overlap (32) ignores NFFT
+        elif m['via'] == 'SpectralAnalyzer.cpsd':
+            m['unit'] = UNITS_TS[i % len(UNITS_TS)]
+        # L3: the optional keys of the Welch method dictionary in all their accepted forms
+        if m['window'] is not None:
+            m['window_kind'] = [None, 'float32', 'int', 'callable'][(i // 2) % 4]
+        if i % 5 == 2:
+            m['detrend_key'] = True
+        if m['via'] is None and i % 9 == 4:
+            m['no_this_method'] = True
+        if m['via'] is None and i % 17 == 5:
+            # get_spectra(x) with method=None: every default of the Welch branch (NFFT 64, Fs 2 pi, hanning, overlap 32)
+            m.update(method_none=True, NFFT=64, Fs=2 * math.pi, n_overlap=None, window=None)
+            for k in ('window_kind', 'detrend_key', 'no_this_method'):
+                m.pop(k, None)
+            shape = shape[:-1] + (rng.randint(40, 150),)
         return put_data(m, gen_signal(rng, nr, shape, cplx, i=i // 7))
     if kind == 'an_psd':
         N = [8, 9, 16, 21, 32][i % 5]
@@ -877,6 +1332,16 @@ def gen_meta(rng, nr, tier, kind, i=None):
         shape = [(n,), (rng.randint(1, 4), n), (2, 2, n)][(i // 2) % 3]
         m = {'op': 'an_psd', 'Fs': gen_fs(rng), 'NFFT': N, 'sides': 'default', 'n_overlap': [None, 0, N // 2, N - 2][(i // 3) % 4],
              'unit': UNITS_TS[i % len(UNITS_TS)]}
+        # L3: window / detrend keys, a spec without 'Fs' / 'this_method'
+        if i % 3 == 1:
+            m['window'] = [float(v) for v in (np.hamming(N) if i % 2 else np.ones(N))]
+            m['window_kind'] = [None, 'callable', 'int', 'float32'][(i // 3) % 4]
+        if i % 4 == 2:
+            m['detrend_key'] = True
+        if i % 2 == 0:
+            m['no_fs_key'] = True
+        if i % 5 == 3:
+            m['no_this_method'] = True
         return put_data(m, gen_signal(rng, nr, shape, cplx, i=i // 7))
     if kind == 'an_periodogram':
         n = gen_n(rng, 8, nmax, i)
@@ -884,7 +1349,7 @@ def gen_meta(rng, nr, tier, kind, i=None):
         m = {'op': 'an_periodogram', 'Fs': gen_fs(rng), 'NFFT': None, 'sides': 'default', 'unit': UNITS_TS[i % len(UNITS_TS)]}
         return put_data(m, gen_signal(rng, nr, gen_shape(rng, n, 4, i=i // 2), cplx, i=i // 7))
     if kind == 'an_mt':
-        n = gen_n(rng, 16, nmax, i)
+        n = nfix or gen_n(rng, 16, nmax, i)
         cplx = False
         Fs = gen_fs(rng)
         m = {'op': 'an_mt', 'Fs': Fs, 'NFFT': None, 'sides': 'default', 'adaptive': (i % 5) in (1, 3),
@@ -894,19 +1359,163 @@ def gen_meta(rng, nr, tier, kind, i=None):
     raise ValueError(kind)
 
 
+DTYPE_CYCLE = ['int16', 'float32', 'int64', 'uint8', 'int32', 'complex64', 'bigendian', 'readonly']
+
+
+def with_dtype(m, k):
+    """L1: the same kind of recording stored as int16 / int32 / int64 / uint8 / float32 / complex64 / big-endian / read-only;
+    the recorded data are the typed array converted back to float64 (exact), from which model and oracle compute"""
+    import histories
+    x = get_data(m)
+    fam = histories.dtype_family(x, kinds=(k,))
+    if not fam:
+        return m
+    v = np.asarray(fam[0][1])
+    put_data(m, v.astype(complex) if np.iscomplexobj(v) else v.astype(float))
+    m['dtype'] = k
+    if k == 'complex64' and m.get('sides') == 'onesided':
+        m['sides'] = 'default'
+    return m
+
+
+_HIST_N = [0]
+
+
+def fresh_n(nmax):
+    """a signal length no ordinary case uses (ordinary n <= nmax + 1) and no other history case used: keys of module-level
+    caches are then untouched when the history starts, whatever ran before in this process"""
+    _HIST_N[0] += 1
+    # (wraps after 60 lengths to bound the cost of the O(N^2) model transform in thorough runs; a repeated length can only
+    # hide a history effect in a later case, never create one)
+    return nmax + 3 + (_HIST_N[0] % 60)
+
+
+def gen_history(rng, nr, tier, kind, i, nmax):
+    if kind == 'h_sk':
+        n = gen_n(rng, 8, min(nmax, 40), i)
+        cplx = (i % 7) == 3
+        skk = SK_KINDS[i % len(SK_KINDS)]
+        shape = (2, 2, n) if skk == '3d' else [(1, n), (2, n), (3, n), (4, n)][(i // 2) % 4]
+        M = int(np.prod(shape[:-1]))
+        Nsk = [n, n + 1, n + 4, 2 * n, n, n + 7, max(4, n - 3)][(i // 3) % 7]
+        sd = ['default', 'twosided', 'onesided', 'default']
+        L = [2, 3, 1, 2, 4][i % 5]
+        calls = []
+        for j in range(L):
+            k = ['c', 'c', 'p', 'r'][(i + 3 * j) % 4] if j else ['c', 'c', 'p'][i % 3]
+            side = sd[(i // 2 + j) % 4]
+            if cplx and side == 'onesided':
+                side = 'default'
+            norm = not ((i + j) % 6 == 5)
+            calls.append([k, side, norm] + ([rng.randrange(M)] if k == 'r' else []))
+        m = {'op': 'skhist', 'Fs': gen_fs(rng), 'Nsk': Nsk, 'calls': calls, 'sk_kind': skk if skk != '3d' else 'c128', 'scribble': i % 3 == 0,
+             'sides': 'default'}
+        return put_data(m, gen_signal(rng, nr, shape, cplx, i=i // 7))
+    if kind == 'tapers':
+        n = fresh_n(nmax)
+        nw4 = [8, 10, 12, 16, 9, 14][i % 6]
+        K = int(2 * nw4 / 4.0)
+        frm = [n // 2, n // 3 + 3, n - 5][i % 3]
+        kk = (i // 2) % len(INTERP_KINDS)
+        a, b, c = [n, nw4, K, frm, kk], [n, nw4, K, 0, 0], [n, [12, 8, 10][i % 3] if nw4 != [12, 8, 10][i % 3] else 16, 4, 0, 0]
+        reqs = [[a, b], [b, a], [a, c, b], [c, a, b, b], [b, c, a, a, b], [a, a, b]][(i // 3) % 6]
+        return {'op': 'tapers', 'reqs': reqs, 'Fs': 1.0, 'sides': 'default', 'shape': [1], 're': [1.0], 'im': None}
+    if kind == 'h_mt':
+        op = HIST_OPS['h_mt'][i % len(HIST_OPS['h_mt'])]
+        n = fresh_n(nmax)
+        m = gen_meta(rng, nr, tier, op, i=i, nfix=n)
+        if op == 'mtcsd':
+            m['via'] = [None, 'get_spectra'][i % 2] if m['shape'][0] != 2 or len(m['shape']) != 2 else m['via']
+        NW, K = mt_params(dict(m, Fs=m['Fs']), n)
+        frm = [n // 2, n // 3 + 4, n - 3][(i // 2) % 3]
+        steps = [['dpss', n, float(NW), int(K), int(frm), INTERP_KINDS[(i // 3) % len(INTERP_KINDS)]]]
+        if i % 3 == 1:
+            steps.insert(0, ['dpss', n, float(NW) + 0.5, int(K) + 1, 0, 'linear'])
+        if i % 4 == 2:
+            steps.append(['tapered_spectra', [2, n], float(NW), int(K), bool(i % 8 == 2)])
+        m['hist'] = steps
+        return m
+    if kind == 'h_call':
+        op = HIST_OPS['h_call'][i % len(HIST_OPS['h_call'])]
+        if op in ('welch', 'an_periodogram'):
+            m = gen_meta(rng, nr, tier, op, i=i)
+            if op == 'welch' and not m.get('method_none'):
+                # same NFFT, same n, same layout: other window / overlap, other data
+                N = m['NFFT']
+                mv = dict(m)
+                mv['window'] = [float(v) for v in np.hamming(N)] if m.get('window') is None else None
+                mv.pop('window_kind', None)
+                mv['n_overlap'] = 0 if welch_overlap(m) != 0 else N // 2
+                put_data(mv, get_data(m)[..., ::-1] * 0.5 + 1.0)
+            else:
+                mv = gen_meta(rng, nr, tier, op, i=i + 1)
+        else:
+            n = fresh_n(nmax)
+            m = gen_meta(rng, nr, tier, op, i=i, nfix=n)
+            mv = gen_meta(rng, nr, tier, op, i=i + 5, nfix=n)
+            if op in ('mtpsd', 'mtcsd'):
+                # the variant differs in what a sloppy cache key would forget: low_bias, adaptive, sides, NFFT -- same n, NW
+                mv['NW'], mv['BW'] = m.get('NW'), m.get('BW')
+                if m.get('BW') is not None:
+                    mv['Fs'] = m['Fs']
+                mv['low_bias'] = not m.get('low_bias', True)
+                mv['adaptive'] = not m['adaptive']
+        mv.pop('hist', None)
+        m['hist'] = [['call', mv]]
+        m['twice'] = i % 2 == 0
+        return m
+    if kind == 'h_an':
+        op = ['an_psd', 'welch'][i % 2]
+        m = gen_meta(rng, nr, tier, op, i=(i // 2) * 24 + (20 if op == 'welch' else 0))
+        if op == 'welch':
+            m['via'] = 'SpectralAnalyzer.cpsd'
+            m['unit'] = UNITS_TS[i % len(UNITS_TS)]
+            m.pop('no_this_method', None)
+        if i % 4 == 3:
+            # the same TimeSeries object analysed before with other contents, refilled in place, NEW analyzer
+            m['ts_reuse'] = True
+            m.pop('method_none', None)
+            return m
+        m['shared'] = {'ratio': [2.0, 0.5, 10.0][i % 3],
+                       'who': [['coherence-ctor'], ['cpsd'], ['coherence-spectrum', 'psd'], ['psd', 'coherence-ctor']][(i // 2) % 4]}
+        if i % 5 == 2:
+            # every analyzer built with method=None (class-level / module-level default dicts)
+            m.update(method_none=True, NFFT=64, n_overlap=None, window=None)
+            for k in ('window_kind', 'detrend_key', 'no_this_method', 'no_fs_key'):
+                m.pop(k, None)
+            m['shared']['who'] = [w for w in m['shared']['who'] if not w.startswith('coherence')] or ['psd', 'cpsd']
+            return m
+        m.pop('no_fs_key', None)
+        if m.get('n_overlap') is None:
+            # CoherenceAnalyzer writes its own default overlap (32, whatever NFFT) into the caller's dict: keep the spec valid
+            m['n_overlap'] = m['NFFT'] // 2
+        return m
+    raise ValueError(kind)
+
+
 MIX = {'quick': [('periodogram', 160), ('pcsd', 100), ('mtpsd', 90), ('mtcsd', 60), ('welch', 100), ('an_psd', 30), ('an_periodogram', 25), ('an_mt', 25),
-                 ('xperiodogram', 60), ('xpcsd', 40), ('xwelch', 60)],
+                 ('xperiodogram', 60), ('xpcsd', 40), ('xwelch', 60),
+                 ('periodogram@dtype', 40), ('pcsd@dtype', 32), ('mtpsd@dtype', 32), ('mtcsd@dtype', 24), ('welch@dtype', 32), ('an_psd@dtype', 16),
+                 ('an_periodogram@dtype', 16), ('an_mt@dtype', 24),
+                 ('h_sk', 70), ('h_mt', 30), ('h_call', 36), ('h_an', 16), ('tapers', 12)],
        'thorough': [('periodogram', 900), ('pcsd', 500), ('mtpsd', 400), ('mtcsd', 250), ('welch', 500), ('an_psd', 120), ('an_periodogram', 100), ('an_mt', 100),
-                    ('xperiodogram', 400), ('xpcsd', 300), ('xwelch', 400)]}
+                    ('xperiodogram', 400), ('xpcsd', 300), ('xwelch', 400),
+                    ('periodogram@dtype', 200), ('pcsd@dtype', 160), ('mtpsd@dtype', 120), ('mtcsd@dtype', 96), ('welch@dtype', 160), ('an_psd@dtype', 64),
+                    ('an_periodogram@dtype', 64), ('an_mt@dtype', 64),
+                    ('h_sk', 350), ('h_mt', 120), ('h_call', 150), ('h_an', 64), ('tapers', 48)]}
 
 
 def gen_all(rng, tier, seed, pid=PID, mix=None):
     nr = common.np_rng(pid, seed, 'signals')
     out = []
     off = rng.randrange(10**4)
+    _HIST_N[0] = 0
     for kind, cnt in (mix or MIX)[tier]:
         for i in range(cnt):
-            out.append(gen_meta(rng, nr, tier, kind, i=off + i))
+            if '@dtype' in kind:
+                out.append(with_dtype(gen_meta(rng, nr, tier, kind.split('@')[0], i=off + i), DTYPE_CYCLE[(off + i) % len(DTYPE_CYCLE)]))
+            else:
+                out.append(gen_meta(rng, nr, tier, kind, i=off + i))
     return out
 
 
